@@ -63,9 +63,9 @@ type Summary struct {
 
 // Analysis holds summaries for a set of functions.
 type Analysis struct {
-	Funcs    map[*ssa.Function]bool
-	Sum      map[*ssa.Function]*Summary
-	FnEff    map[*ssa.Function][]Effect
+	Funcs map[*ssa.Function]bool
+	Sum   map[*ssa.Function]*Summary
+	FnEff map[*ssa.Function][]Effect
 	// ReadOnly lists external functions that do not write through their arguments and whose
 	// results are fresh (or alias only what is listed in Alias).
 	ReadOnly func(fn *ssa.Function) (ok bool, resultAliasesArg int)
@@ -73,8 +73,8 @@ type Analysis struct {
 	SharedParam func(p *ssa.Parameter) bool
 	// Guard may declare an effect harmless (returns a reason); such effects stay listed but do not
 	// enter the function's summary.
-	Guard func(fn *ssa.Function, in ssa.Instruction) string
-	values map[*ssa.Function]map[ssa.Value]Class
+	Guard   func(fn *ssa.Function, in ssa.Instruction) string
+	values  map[*ssa.Function]map[ssa.Value]Class
 	content map[*ssa.Function]map[ssa.Value]Class // content class of allocs/maps/slices created here
 }
 
